@@ -47,7 +47,7 @@ CHECKS = {
    note="rustfmt --edition 2021 stands for the build's formatter; no ruff offline, so Python is compared as AST with docstrings line-stripped", ref="3/C05"),
  "C07": dict(cat="exploration", technique="exhaustive enumeration of emitted Rust items against an independent mapping (text analyser, fail-closed)",
    text="Every item of the lib.rs emitted from the working tree (and of the committed copy) is parsed and compared with an independent re-statement of the mapping: field-name sets under serde's rename rule, type trees, Option wrapping, enum discriminants incl. the hand-written impls, untagged aliases, message structs, method enums, feature gates; both directions.",
-   note="declarations only - serde runtime behaviour is not exercised (no crates offline); the params type of a message struct is compared for references to structures that have properties (the plugin types the params of property-less structures as LSPAny)", ref="3/C07"),
+   note="declarations only - serde runtime behaviour is not exercised (no crates offline); the params type of a message struct is compared for references to structures that have properties (the plugin types the params of property-less structures as LSPAny); the structs of anonymous literals are held to the same field checks as the structs of structures", ref="3/C07"),
  "C08": dict(cat="exploration", technique="exhaustive enumeration of emitted C# files against an independent mapping (text analyser, fail-closed)",
    text="Every .cs file the dotnet plugin writes from the working tree is parsed; DataMember sets, type trees, nullability, NullValueHandling, constructor assignment, enum values and the per-method metadata table (LSPRequest/LSPResponse pairing, LSPMethods constants, Direction) are compared with lsp.json. At every position of an anonymous literal the C# type written there must name a generated class of its own whose data members are the literal's properties.",
    note="declarations only (no .NET SDK); the nullable / null-ignoring rule is applied to array and map members as well (known finding KF-dotnet-optional-collections); a notification class carries its method through its LSPMethods constant (the plugin puts no attribute on the class)", ref="3/C08"),
